@@ -1,7 +1,7 @@
 """C17 - flight helpers always end on the ground command and track motion faithfully."""
 import ast
 
-from ..astutil import method_call
+from ..astutil import effective, method_call
 from ..cfg import cfg_of, fact_key, norm, walk_own
 from ..consteval import Scope, class_const, fold_in
 from ..mutate import B, M
@@ -84,7 +84,7 @@ def check(ctx):
     stops = g.find(lambda n: method_call(n, 'send_stop_setpoint'))
     ctx.inst('R1', land, 'stop-only-if-flying', bool(stops) and all(fact_key('self._is_flying', True) in g.fact_keys_at(n) for n, _ in stops), 'landing commands are issued only when flying')
     st = T.method('stop')
-    body = [norm(s) for s in st.node.body if not (isinstance(s, ast.Expr) and isinstance(s.value, ast.Constant))]
+    body = [norm(s) for s in effective(st.node.body)]
     ctx.inst('R1', st, 'thread-stop=terminate+join', body == ['self._queue.put(self.TERMINATE_EVENT)', 'self.join()'], 'stop() enqueues the terminate event and joins without timeout; body %s' % body)
     run = T.method('run')
     gr = cfg_of(run)
@@ -111,7 +111,7 @@ def check(ctx):
     # ---- R2 --------------------------------------------------------------------------
     for K, path in ((M_, MC), (P, PH)):
         ex = K.method('__exit__')
-        body = [norm(s) for s in ex.node.body if not (isinstance(s, ast.Expr) and isinstance(s.value, ast.Constant))]
+        body = [norm(s) for s in effective(ex.node.body)]
         gx = cfg_of(ex)
         lc = gx.find(lambda n: method_call(n, 'land') and norm(n.func.value) == 'self')
         ok = len(lc) == 1 and not gx.facts_at(lc[0][0]) and ('n', lc[0][0].id) in gx.dom()[('n', gx.exit.id)] and not lc[0][1].args
